@@ -101,12 +101,55 @@ fn pbytes(p: &ProtectedHeader) -> Vec<u8> {
     }
 }
 
+/// The header as a *received* protected header: its map in a drawn, mostly non-canonical encoding
+/// (entry order, head widths, indefinite lengths; h'' / a0 / bf ff when empty), decoded by the
+/// crate, so that it carries retained bytes that differ from the crate's own encoding.
+fn received(g: &mut Gen, h: &Header) -> ProtectedHeader {
+    let w = if h.is_empty() && g.bool() {
+        vec![]
+    } else {
+        let own = match h.clone().to_vec() {
+            Ok(b) => b,
+            Err(_) => return built(h),
+        };
+        let mut item = match crate::cbor::read_strict(&own) {
+            Ok(i) => i,
+            Err(_) => return built(h),
+        };
+        if let crate::cbor::Item::Map(m) = &mut item {
+            match g.below(3) {
+                0 => {}
+                1 => m.reverse(),
+                _ => {
+                    let k = g.below(m.len().max(1));
+                    m.rotate_left(k);
+                }
+            }
+        }
+        crate::cbor::encode_styled(&mut item, g, crate::cbor::StyleOpts::ALL)
+    };
+    match ProtectedHeader::from_cbor_bstr(Value::Bytes(w)) {
+        Ok(p) if p.header == *h => p,
+        _ => built(h),
+    }
+}
+
+/// Protected header of a signer / recipient description: built, or (one in four) received.
+fn gen_prot_desc(g: &mut Gen) -> ProtectedHeader {
+    let h = gen_small_header(g);
+    if g.ratio(1, 4) {
+        received(g, &h)
+    } else {
+        built(&h)
+    }
+}
+
 fn gen_sig(g: &mut Gen) -> CoseSignature {
-    CoseSignature { protected: built(&gen_small_header(g)), unprotected: gen_small_header(g), signature: gen_out(g) }
+    CoseSignature { protected: gen_prot_desc(g), unprotected: gen_small_header(g), signature: gen_out(g) }
 }
 
 fn gen_rcp(g: &mut Gen) -> CoseRecipient {
-    CoseRecipient { protected: built(&gen_small_header(g)), unprotected: gen_small_header(g), ciphertext: if g.bool() { Some(g.small_bytes()) } else { None }, recipients: vec![] }
+    CoseRecipient { protected: gen_prot_desc(g), unprotected: gen_small_header(g), ciphertext: if g.bool() { Some(g.small_bytes()) } else { None }, recipients: vec![] }
 }
 
 #[derive(Clone, Copy, PartialEq, Eq, Debug)]
